@@ -894,6 +894,11 @@ func healthScenario(s *verifsim.Sim) {
 		s.RunUntil(func() bool { return finished }, 7)
 		if !finished && !s.Failed() {
 			s.Probe("step-budget-exhausted")
+			// bounded liveness: the history is at most 8 simulated minutes long and no call of
+			// the dialer / group API waits for anything but locks
+			if s.Now() > time.Hour {
+				s.Failf("health-call-wedged", "the sequential driver is still inside a dialer/group call at simulated time %v (histories end before 9 minutes); live tasks: %v", s.Now(), s.LiveTasks(""))
+			}
 		}
 		return
 	}
@@ -965,6 +970,9 @@ func healthScenario(s *verifsim.Sim) {
 	if !s.RunUntil(func() bool { return done == total }, 8) {
 		if !s.Failed() {
 			s.Probe("step-budget-exhausted")
+			if s.Now() > time.Hour {
+				s.Failf("health-call-wedged", "%d of %d notifier/selector tasks are still inside a dialer/group call at simulated time %v; live tasks: %v", total-done, total, s.Now(), s.LiveTasks(""))
+			}
 		}
 		return
 	}
